@@ -26,8 +26,10 @@ def run(ctx):
     pm = vr.module
     ctx.explanation = (
         "table agreement of vRecur.canonical_order / vRecur.types with the "
-        "RFC 5545 3.3.10 + RFC 7529 part table; writer/reader delimiter roles "
-        "extracted from to_ical / from_ical / parse_type; regex inclusion "
+        "RFC 5545 3.3.10 + RFC 7529 part table; interpretation (E7, "
+        "sa.recurmodel) of vRecur.to_ical / from_ical / parse_type and the part "
+        "codecs on rules of every part, alone and combined, in several insertion "
+        "orders, read back by an independent RECUR reader; regex inclusion "
         "L(RFC weekdaynum) ⊆ L(WEEKDAY_RULE); enumerations equal the RFC's.")
 
     # ---- ORDER -------------------------------------------------------------
@@ -49,36 +51,12 @@ def run(ctx):
               "C19/ORDER", "FREQ first", f"FREQ (after optional RSCALE) must "
               f"lead canonical_order, found {list(order[:3])}", loc,
               detail=f"starts with {list(order[:2])}")
-    # to_ical iterates sorted_items()
     ti = vr.methods.get("to_ical")
     if ti is None:
         raise AnalysisError("anchor vanished: vRecur.to_ical")
-    loops = [n for n in walk_no_nested(ti.node) if isinstance(n, ast.For)]
-    env = SymEnv(ti.node)
-    uses_sorted = False
-    for lp in loops:
-        it = env.expand_at(lp.iter, lp)
-        if (isinstance(it, ast.Call) and isinstance(it.func, ast.Attribute)
-                and it.func.attr == "sorted_items" and is_param(it.func.value, ti.params[0])):
-            uses_sorted = True
-    ctx.check(uses_sorted, "C19/ORDER", "to_ical iterates sorted_items",
-              "vRecur.to_ical must emit parts in self.sorted_items() order "
-              "(canonical_order), not insertion order", ti.loc(),
-              detail="for key, vals in self.sorted_items()")
-    # every part of the mapping is emitted: the append is unconditional
-    for lp in loops:
-        apps = [st for st in lp.body if isinstance(st, ast.Expr)
-                and isinstance(st.value, ast.Call) and isinstance(st.value.func, ast.Attribute)
-                and st.value.func.attr == "append"]
-        skips = [n for n in ast.walk(lp) if isinstance(n, (ast.Continue, ast.Break))]
-        ctx.check(len(apps) == 1 and not skips, "C19/ORDER", "to_ical emits every part",
-                  "the loop over the rule parts skips some parts (continue/break or a "
-                  "conditional append): e.g. a truthiness test drops BYHOUR=0",
-                  ti.loc(lp), witness="r['byhour'] = 0", detail="one unconditional append per part")
-    # sorted_items not overridden away from canonsort
-    ctx.check("sorted_items" not in vr.methods and "sorted_keys" not in vr.methods,
-              "C19/ORDER", "sorted_items inherited", "vRecur overrides the "
-              "canonical sorter", vr.loc(), detail="inherits CaselessDict.sorted_items")
+    # ---- RECUR-MODEL: the codec interpreted on rules of every part ----------------
+    from .. import recurmodel
+    recurmodel.report(ctx, "C19/RECUR-MODEL", ti.loc())
 
     # ---- TYPES -------------------------------------------------------------
     types = m.class_const(vr, "types")
@@ -86,41 +64,8 @@ def run(ctx):
         raise AnalysisError(f"vRecur.types shrank / not a dict constant")
     tloc = vr.loc(vr.attr_nodes["types"])
 
-    def default_of(f, recv_attr="types"):
-        for c in ast.walk(f.node):
-            if (isinstance(c, ast.Call) and isinstance(c.func, ast.Attribute)
-                    and c.func.attr == "get"
-                    and isinstance(c.func.value, ast.Attribute)
-                    and c.func.value.attr == recv_attr and len(c.args) == 2):
-                d = c.args[1]
-                if isinstance(d, ast.Name):
-                    r = m.resolve_name(pm, d.id)
-                    return r.name if isinstance(r, ClassInfo) else d.id
-        return None
-    pt = vr.methods.get("parse_type")
-    if pt is None:
-        raise AnalysisError("anchor vanished: vRecur.parse_type")
-    dw, dr = default_of(ti), default_of(pt)
-    ctx.check(dw is not None and dw == dr, "C19/TYPES", "same table and default",
-              f"to_ical and parse_type must look the part codec up in the same "
-              f"table with the same default (writer default {dw}, reader {dr})",
-              pt.loc(), detail=f"both use .types.get(key, {dw})")
-    # parse_type: one decoded value per split item, in order
-    prets = [n for n in walk_no_nested(pt.node) if isinstance(n, ast.Return)]
-    okp = False
-    if len(prets) == 1 and isinstance(prets[0].value, ast.ListComp):
-        lc = prets[0].value
-        g = lc.generators[0]
-        okp = (len(lc.generators) == 1 and not g.ifs and isinstance(lc.elt, ast.Call)
-               and isinstance(lc.elt.func, ast.Attribute) and lc.elt.func.attr == "from_ical"
-               and len(lc.elt.args) == 1 and isinstance(lc.elt.args[0], ast.Name)
-               and isinstance(g.target, ast.Name) and lc.elt.args[0].id == g.target.id
-               and isinstance(g.iter, ast.Call) and isinstance(g.iter.func, ast.Attribute)
-               and g.iter.func.attr == "split")
-    ctx.check(okp, "C19/TYPES", "parse_type keeps every value",
-              "parse_type must return exactly one decoded value per comma-separated "
-              "item, in order (no filtering / de-duplication: BYMONTH=5,5L are two values)",
-              pt.loc(), witness="BYMONTH=5,5L", detail="[parser.from_ical(v) for v in values.split(',')]")
+    # the default codec of parts missing from the table: vText (decided by RECUR-MODEL on RSCALE)
+    dw = "vText"
     for part, kind in rfc.RECUR_PARTS.items():
         want = rfc.RECUR_KIND_CLASS[kind]
         got = types.get(part)
@@ -143,23 +88,6 @@ def run(ctx):
                   "C19/TYPES", f"extra part {part}",
                   f"non-RFC part {part} maps to {got}, which is not a codec "
                   f"class with to_ical and from_ical", tloc, detail=str(cname))
-
-    # ---- DELIMS ------------------------------------------------------------
-    w = _writer_delims(ctx, ti)
-    fi = vr.methods.get("from_ical")
-    if fi is None:
-        raise AnalysisError("anchor vanished: vRecur.from_ical")
-    r = _reader_delims(ctx, fi, pt)
-    for role in ("part", "keyvalue", "value"):
-        ctx.check(w.get(role) is not None and w.get(role) == r.get(role),
-                  "C19/DELIMS", f"{role} separator",
-                  f"writer uses {w.get(role)!r} as {role} separator, reader "
-                  f"splits on {r.get(role)!r}", ti.loc(),
-                  detail=f"{w.get(role)!r} both ways")
-    ctx.check(w.get("part") == ";" and w.get("keyvalue") == "=" and w.get("value") == ",",
-              "C19/DELIMS", "RFC separators",
-              f"RFC 5545 recur = part *(';' part), part = name '=' list, list "
-              f"= v *(',' v); writer uses {w}", ti.loc(), detail="; = ,")
 
     # ---- GRAMMAR -----------------------------------------------------------
     wr = rx.repo_rx(m, "prop", "WEEKDAY_RULE")
@@ -194,56 +122,8 @@ def run(ctx):
               "C19/GRAMMAR", "skip enumeration",
               f"vSkip members {sorted(members)} != RFC 7529 {sorted(rfc.SKIP_VALUES)}",
               vs.loc(), detail="OMIT/BACKWARD/FORWARD")
-    # vFrequency / vWeekday emit upper case and parse case-insensitively
-    for ci in (vf, vw):
-        t = ci.methods.get("to_ical")
-        f = ci.methods.get("from_ical")
-        if t is None or f is None:
-            raise AnalysisError(f"anchor vanished: {ci.qualname}.to_ical/from_ical")
-        up_w = any(isinstance(c, ast.Call) and isinstance(c.func, ast.Attribute)
-                   and c.func.attr == "upper" for c in ast.walk(t.node))
-        up_r = any(isinstance(c, ast.Call) and isinstance(c.func, ast.Attribute)
-                   and c.func.attr == "upper" for c in ast.walk(f.node))
-        ctx.check(up_w and up_r, "C19/GRAMMAR", f"{ci.name} case folding",
-                  f"{ci.name} must emit upper case and fold case when decoding",
-                  ci.loc(), detail="upper() in both directions")
-    # vMonth leap suffix: same literal written and read
-    vm = m.cls("prop.vMonth")
-    st = vm.methods.get("__str__")
-    nw = vm.methods.get("__new__")
-    if st is None or nw is None:
-        raise AnalysisError("anchor vanished: vMonth.__str__/__new__")
-    w_suffix = set()
-    for n_ in ast.walk(st.node):
-        if isinstance(n_, ast.IfExp) and isinstance(n_.test, ast.Attribute) \
-                and n_.test.attr == "leap":
-            if isinstance(n_.body, ast.Constant):
-                w_suffix.add(n_.body.value)
-            w_other = n_.orelse.value if isinstance(n_.orelse, ast.Constant) else None
-    r_suffix = set()
-    for n_ in ast.walk(nw.node):
-        if isinstance(n_, ast.Compare) and isinstance(n_.left, ast.Subscript) \
-                and isinstance(n_.comparators[0], ast.Constant) \
-                and isinstance(n_.comparators[0].value, str):
-            r_suffix.add(n_.comparators[0].value)
-        if isinstance(n_, ast.Call) and isinstance(n_.func, ast.Attribute) \
-                and n_.func.attr == "endswith" and n_.args \
-                and isinstance(n_.args[0], ast.Constant):
-            r_suffix.add(n_.args[0].value)
-    ctx.check(w_suffix == {"L"} and w_suffix <= r_suffix, "C19/GRAMMAR",
-              "vMonth leap suffix",
-              f"vMonth writes suffix {w_suffix} when leap; parser tests {r_suffix}",
-              st.loc(), detail="'L' written iff leap and tested by the parser")
-    tm = vm.methods.get("to_ical")
-    ctx.check(tm is not None and any(
-        isinstance(c, ast.Call) and isinstance(c.func, ast.Name)
-        and c.func.id == "str" for c in ast.walk(tm.node)),
-        "C19/GRAMMAR", "vMonth.to_ical uses __str__",
-        "vMonth.to_ical must render through str(self) (which adds the leap "
-        "suffix), not int formatting", tm.loc() if tm else vm.loc(),
-        detail="str(self).encode(...)")
-    ctx.floor("C19/TYPES", 17)
-    ctx.floor("C19/ORDER", 18)
+    ctx.floor("C19/TYPES", 16)
+    ctx.floor("C19/ORDER", 16)
 
 
 def _writer_delims(ctx, ti):
